@@ -193,6 +193,20 @@ CLAIMED = {
         "Trusted: Lean kernel, standard axioms, hand model; the tie carries the weight for this property.",
         "Lean 4 proof about a reference-free model + correspondence under in-place edits + argument-mutation monitor",
         "DESIGN.md §5 C10"),
+    "C15": (
+        "Machine-checked Lean 4 proof over an ordered field, for every matrix shape and every NaN/+-inf pattern, "
+        "about a hand model of load_training_set (after the files were read) and compute_sample_weight: with "
+        "remove_nan the result contains no NaN, with replace_inf no infinity (each becomes +-2 x the largest finite "
+        "magnitude of its column; the all-NaN and the no-finite-entry branches are characterised), rows stay paired "
+        "with their responses and are exactly the rows passing the NaN filter in their original order, finite "
+        "entries are never altered, zero-rated NaNs are imputed only from zero-rated references; sample weights are "
+        "non-negative, sum to one and give every rating class present the same total. Tied by exact-rational "
+        "correspondence through real training-set directories. Partial: text format (%.2e), file reading and the "
+        "export order are runtime (explored by an export/import round trip).",
+        "Trusted: Lean kernel, standard axioms, hand model (exact sampled correspondence), numpy mean/nanmax "
+        "semantics on inf/NaN as modelled, np.loadtxt/savetxt.",
+        "Lean 4 proof over an ordered field with extended values + exact-rational correspondence via real files",
+        "DESIGN.md §5 C15"),
 }
 
 PENDING_REASON = "check not built yet in this round (planned, see DESIGN.md §8); not claimed until its machinery exists"
